@@ -26,6 +26,7 @@ TLE = """ISS (ZARYA)
 L = np.tril(np.arange(1.0, 37.0).reshape(6, 6) * 0.37 + 2.0)
 COV = (L @ L.T) * np.outer([10, 10, 10, 0.01, 0.01, 0.01], [10, 10, 10, 0.01, 0.01, 0.01])
 station = create_station("VfCcsds", (43.604482, 1.443962, 172.0))
+station2 = create_station("VfCcsds2", (5.25, -52.8, 15.0))
 
 
 def covframe(cfg, sv, k=0):
@@ -109,6 +110,23 @@ def build(cfg):
         ms.append(Elevation(path, d, 0.345678 + 0.01 * k))
         if cfg["tdmdoppler"]:
             ms.append(Doppler(path, d, -1234.5678 + k))
+    how = cfg.get("grown", "no")
+    if how != "no":
+        # history: the set has been written once, then measurements on ANOTHER path are merged into the same object in place
+        ccsds.dumps(ms)
+        path2 = [station2.name, sat] if cfg["tdmpath"] == "one-way" else [station2.name, sat, station2.name]
+        extra = []
+        for k in range(2):
+            d = (EPOCH + timedelta(seconds=40 + 5.25 * k))
+            d = d.change_scale(cfg["scale"]) if cfg["scale"] != "UTC" else d
+            extra += [Range(path2, d, 2234567.891 + 1000 * k), Azimut(path2, d, 0.5 + 0.01 * k), Elevation(path2, d, 0.7 + 0.01 * k)]
+        if how == "extend":
+            ms.extend(extra)
+        elif how == "iadd":
+            ms += extra
+        else:
+            for x in extra:
+                ms.insert(len(ms), x)
     return ms
 
 
@@ -163,8 +181,10 @@ def project(obj, t):
         if m.type == "Doppler":
             return round(m.value * 1e6)
         return round(np.degrees(m.value) % 360 * 100) % 36000
+    # a message with several paths (one segment each) is read back as a list of measurement sets: the content is what is compared
+    flat = [m for part in obj for m in part] if isinstance(obj, list) else list(obj)
     return sorted([{"type": m.type, "path": [str(getattr(p, "name", p)) for p in m.path], "epoch": inst(m.date), "scale": m.date.scale.name,
-                    "value": val(m)} for m in obj], key=lambda x: (x["epoch"], x["type"]))
+                    "value": val(m)} for m in flat], key=lambda x: (x["epoch"], x["type"], x["path"]))
 
 
 def diff(a, b, pre=""):
